@@ -22,7 +22,9 @@ package playback
 // oracles to learn what the recorder put on disk (box boundaries, parts, per-sample sizes/durations/flags).
 
 import (
+	"bytes"
 	"encoding/binary"
+	"encoding/json"
 	"errors"
 	"fmt"
 	"net/http"
@@ -30,6 +32,7 @@ import (
 	"net/url"
 	"os"
 	"path/filepath"
+	"runtime"
 	"sort"
 	"strings"
 	"sync"
@@ -37,6 +40,8 @@ import (
 
 	"github.com/bluenviron/gortsplib/v5/pkg/description"
 	rtspformat "github.com/bluenviron/gortsplib/v5/pkg/format"
+	"github.com/bluenviron/mediacommon/v2/pkg/formats/fmp4"
+	"github.com/bluenviron/mediacommon/v2/pkg/formats/pmp4"
 	"github.com/gin-gonic/gin"
 	"pgregory.net/rapid"
 
@@ -81,6 +86,8 @@ type rbSpec struct {
 	PartDur  time.Duration
 	SegDur   time.Duration
 	Sessions []rbSession
+	// OrderBits fixes the order of the two traf boxes of every part (see rbBuild)
+	OrderBits uint64
 }
 
 func (s *rbSpec) clock(track int) int64 {
@@ -103,7 +110,7 @@ func (s *rbSpec) nTracks() int {
 
 func (s *rbSpec) String() string {
 	var b strings.Builder
-	fmt.Fprintf(&b, "video=%q audio=%q part=%v seg=%v", s.Video, s.Audio, s.PartDur, s.SegDur)
+	fmt.Fprintf(&b, "video=%q audio=%q part=%v seg=%v order=%x", s.Video, s.Audio, s.PartDur, s.SegDur, s.OrderBits)
 	for i, se := range s.Sessions {
 		fmt.Fprintf(&b, " | s%d start=%s base=%v end=%d units=", i, se.Start.UTC().Format("15:04:05.000000"), se.PTSBase, se.EndTicks)
 		for j, u := range se.Units {
@@ -196,10 +203,12 @@ func (b *rbBuilt) PathConfs() map[string]*conf.Path {
 }
 
 type rbLogger struct {
-	mu      sync.Mutex
-	drift   chan struct{}
-	once    sync.Once
-	problem []string
+	mu       sync.Mutex
+	drift    chan struct{}
+	once     sync.Once
+	failed   chan struct{}
+	failOnce sync.Once
+	problem  []string
 }
 
 func (l *rbLogger) Log(level logger.Level, format string, args ...any) {
@@ -215,6 +224,10 @@ func (l *rbLogger) Log(level logger.Level, format string, args ...any) {
 		l.mu.Lock()
 		l.problem = append(l.problem, msg)
 		l.mu.Unlock()
+		if level == logger.Error {
+			// the recorder instance gave up for another reason: the sentinels will never be examined
+			l.failOnce.Do(func() { close(l.failed) })
+		}
 	}
 }
 
@@ -265,7 +278,76 @@ func rbBuild(dir string, spec *rbSpec) (*rbBuilt, error) {
 		}
 		out.Sessions = append(out.Sessions, *bs)
 	}
+
+	// The recorder emits the tracks of a part in Go map iteration order (writePart ranges over a map), i.e. the
+	// order of the traf boxes is random from run to run. To keep cases reproducible the builder fixes the order
+	// per part from spec.OrderBits by swapping the two traf boxes (and their sample data) where needed: every
+	// order is a legal output of the recorder, and both are explored.
+	if spec.nTracks() == 2 {
+		for si := range out.Sessions {
+			for gi, p := range out.Sessions[si].Segments {
+				data, info, err := rbReadSegment(p)
+				if err != nil {
+					return nil, fmt.Errorf("session %d segment %d: walker: %w", si, gi, err)
+				}
+				nd, changed, err := rbReorderTrafs(data, info, func(part int) bool {
+					return (spec.OrderBits>>uint((si*11+gi*5+part)%64))&1 == 1
+				})
+				if err != nil {
+					return nil, fmt.Errorf("session %d segment %d: reorder: %w", si, gi, err)
+				}
+				if changed {
+					if err := os.WriteFile(p, nd, 0o644); err != nil {
+						return nil, err
+					}
+				}
+			}
+		}
+	}
 	return out, nil
+}
+
+// rbReorderTrafs returns data with, in every part holding two trafs, track 2 first iff audioFirst(part).
+func rbReorderTrafs(data []byte, info *rbSegInfo, audioFirst func(part int) bool) ([]byte, bool, error) {
+	out := append([]byte(nil), data...)
+	changed := false
+	for pi, part := range info.Parts {
+		if len(part.Trafs) != 2 {
+			continue
+		}
+		a, b := part.Trafs[0], part.Trafs[1]
+		wantFirst := uint32(1)
+		if audioFirst(pi) {
+			wantFirst = 2
+		}
+		if a.TrackID == wantFirst {
+			continue
+		}
+		la, lb := 0, 0
+		for _, sa := range a.Samples {
+			la += int(sa.Size)
+		}
+		for _, sa := range b.Samples {
+			lb += int(sa.Size)
+		}
+		mdatBody := part.MoofEnd + 8
+		if a.End != b.Off || b.End != part.MoofEnd || a.DataOffPos < 0 || b.DataOffPos < 0 ||
+			len(a.Samples) == 0 || len(b.Samples) == 0 ||
+			a.Samples[0].Off != mdatBody || b.Samples[0].Off != mdatBody+la || mdatBody+la+lb != part.End {
+			return nil, false, fmt.Errorf("part %d has an unexpected layout", pi)
+		}
+		ta := append([]byte(nil), data[a.Off:a.End]...)
+		tb := append([]byte(nil), data[b.Off:b.End]...)
+		first := uint32(mdatBody - part.Off)
+		binary.BigEndian.PutUint32(tb[b.DataOffPos-b.Off:], first)
+		binary.BigEndian.PutUint32(ta[a.DataOffPos-a.Off:], first+uint32(lb))
+		copy(out[a.Off:], tb)
+		copy(out[a.Off+len(tb):], ta)
+		copy(out[mdatBody:], data[mdatBody+la:mdatBody+la+lb])
+		copy(out[mdatBody+lb:], data[mdatBody:mdatBody+la])
+		changed = true
+	}
+	return out, changed, nil
 }
 
 func rbRecordSession(out *rbBuilt, si int) (*rbBuiltSession, error) {
@@ -303,7 +385,7 @@ func rbRecordSession(out *rbBuilt, si int) (*rbBuiltSession, error) {
 		queue *= 2
 	}
 
-	lg := &rbLogger{drift: make(chan struct{})}
+	lg := &rbLogger{drift: make(chan struct{}), failed: make(chan struct{})}
 
 	strm := &stream.Stream{
 		OrigDesc:          desc,
@@ -393,8 +475,11 @@ func rbRecordSession(out *rbBuilt, si int) (*rbBuiltSession, error) {
 	var err error
 	select {
 	case <-lg.drift:
+	case <-lg.failed:
 	case <-time.After(90 * time.Second):
-		err = errRBTimeout
+		buf := make([]byte, 1<<20)
+		buf = buf[:runtime.Stack(buf, true)]
+		err = fmt.Errorf("%w (%d units, video=%q audio=%q)\n%s", errRBTimeout, len(sess.Units), spec.Video, spec.Audio, buf)
 	}
 	rec.Close()
 
@@ -447,6 +532,9 @@ func rbGenSpec(t *rapid.T, o rbGenOpts) *rbSpec {
 	spec.PartDur = time.Duration(rapid.SampledFrom([]int{40, 100, 150, 250, 400, 1000}).Draw(t, "partMs")) * time.Millisecond
 	spec.SegDur = time.Duration(rapid.SampledFrom([]int{300, 500, 800, 1000, 1500, 2500}).Draw(t, "segMs")) * time.Millisecond
 
+	if spec.nTracks() == 2 {
+		spec.OrderBits = rapid.SampledFrom([]uint64{0, ^uint64(0), 0xAAAAAAAAAAAAAAAA, 0x9E3779B97F4A7C15, 0x0F0F33335555A5C3}).Draw(t, "trafOrder")
+	}
 	nSess := rapid.IntRange(o.MinSessions, o.MaxSessions).Draw(t, "sessions")
 	ragged := o.Ragged && rapid.IntRange(0, 3).Draw(t, "ragged") == 0
 
@@ -625,10 +713,12 @@ type rbWSample struct {
 }
 
 type rbWTraf struct {
-	TrackID  uint32
-	BaseTime uint64
-	HasTfdt  bool
-	Samples  []rbWSample
+	TrackID    uint32
+	BaseTime   uint64
+	HasTfdt    bool
+	Samples    []rbWSample
+	Off, End   int // the traf box
+	DataOffPos int // file offset of trun.data_offset, -1 when absent
 }
 
 type rbWPart struct {
@@ -821,7 +911,7 @@ func rbWalk(data []byte) (*rbSegInfo, error) {
 				}
 			case "traf":
 				if curPart != nil {
-					curPart.Trafs = append(curPart.Trafs, rbWTraf{})
+					curPart.Trafs = append(curPart.Trafs, rbWTraf{Off: pos, End: end, DataOffPos: -1})
 					curTraf = &curPart.Trafs[len(curPart.Trafs)-1]
 					baseIsMoof = false
 				}
@@ -867,6 +957,7 @@ func rbWalk(data []byte) (*rbSegInfo, error) {
 							return fmt.Errorf("trun too short")
 						}
 						dataOff = int32(rbU32(data, o))
+						curTraf.DataOffPos = o
 						o += 4
 					}
 					firstFlags := uint32(0)
@@ -1149,4 +1240,212 @@ func rbLoadDisk(b *rbBuilt) (out []rbDiskSession, problems []string) {
 		out = append(out, ds)
 	}
 	return out, problems
+}
+
+// ---------------------------------------------------------------------------------------------------------------
+// parsing the answers of /get and /list (mediacommon readers, not playback code)
+
+type rbOutSample struct {
+	DTS     int64
+	NonSync bool
+	Payload []byte
+}
+
+type rbOutTrack struct {
+	ID        int
+	TimeScale uint32
+	Samples   []rbOutSample
+}
+
+func rbParseFMP4(body []byte) ([]rbOutTrack, error) {
+	var init fmp4.Init
+	if err := init.Unmarshal(bytes.NewReader(body)); err != nil {
+		return nil, fmt.Errorf("init: %w", err)
+	}
+	var parts fmp4.Parts
+	if err := parts.Unmarshal(body); err != nil {
+		return nil, fmt.Errorf("parts: %w", err)
+	}
+	var out []rbOutTrack
+	for _, it := range init.Tracks {
+		out = append(out, rbOutTrack{ID: it.ID, TimeScale: it.TimeScale})
+	}
+	lastSeq := int64(-1)
+	for _, p := range parts {
+		if int64(p.SequenceNumber) <= lastSeq {
+			return nil, fmt.Errorf("part sequence numbers not increasing (%d after %d)", p.SequenceNumber, lastSeq)
+		}
+		lastSeq = int64(p.SequenceNumber)
+		for _, pt := range p.Tracks {
+			var tr *rbOutTrack
+			for i := range out {
+				if out[i].ID == pt.ID {
+					tr = &out[i]
+				}
+			}
+			if tr == nil {
+				return nil, fmt.Errorf("part references track %d that the init does not declare", pt.ID)
+			}
+			dts := int64(pt.BaseTime)
+			for _, sa := range pt.Samples {
+				tr.Samples = append(tr.Samples, rbOutSample{DTS: dts, NonSync: sa.IsNonSyncSample, Payload: sa.Payload})
+				dts += int64(sa.Duration)
+			}
+		}
+	}
+	return out, nil
+}
+
+func rbParseMP4(body []byte) ([]rbOutTrack, error) {
+	var p pmp4.Presentation
+	if err := p.Unmarshal(bytes.NewReader(body)); err != nil {
+		return nil, err
+	}
+	var out []rbOutTrack
+	for _, tr := range p.Tracks {
+		o := rbOutTrack{ID: tr.ID, TimeScale: tr.TimeScale}
+		dts := int64(tr.TimeOffset)
+		for _, sa := range tr.Samples {
+			pl, err := sa.GetPayload()
+			if err != nil {
+				return nil, fmt.Errorf("payload: %w", err)
+			}
+			o.Samples = append(o.Samples, rbOutSample{DTS: dts, NonSync: sa.IsNonSyncSample, Payload: pl})
+			dts += int64(sa.Duration)
+		}
+		out = append(out, o)
+	}
+	return out, nil
+}
+
+type rbSpan struct{ A, B time.Time }
+
+func rbFmtT(t time.Time) string { return t.UTC().Format("15:04:05.000000") }
+
+// rbListOracle: the recorded intervals clipped to [ws, we] (nil = unbounded), empty ones dropped.
+func rbListOracle(disk []rbDiskSession, ws, we *time.Time) []rbSpan {
+	var out []rbSpan
+	for _, ds := range disk {
+		a, b := ds.A, ds.B
+		if ws != nil && a.Before(*ws) {
+			a = *ws
+		}
+		if we != nil && b.After(*we) {
+			b = *we
+		}
+		if a.Before(b) {
+			out = append(out, rbSpan{a, b})
+		}
+	}
+	return out
+}
+
+type rbListEntry struct {
+	Start    time.Time `json:"start"`
+	Duration float64   `json:"duration"`
+	URL      string    `json:"url"`
+}
+
+func rbAbsDur(d time.Duration) time.Duration {
+	if d < 0 {
+		return -d
+	}
+	return d
+}
+
+// rbCheckList compares an answer of /list with the oracle. tol bounds the quantisation error.
+func rbCheckList(code int, body []byte, want []rbSpan, tol time.Duration) (zeroLen int, err error) {
+	if code == http.StatusNotFound {
+		all := true
+		for _, w := range want {
+			if w.B.Sub(w.A) > 2*tol {
+				all = false
+			}
+		}
+		if all { // nothing (beyond the quantisation error) to report
+			return 0, nil
+		}
+	}
+	if code != http.StatusOK {
+		if len(want) == 0 {
+			return 0, fmt.Errorf("status %d (%s), want 404 or an empty answer", code, body)
+		}
+		return 0, fmt.Errorf("status %d (%s), want %d spans", code, body, len(want))
+	}
+	var entries []rbListEntry
+	if e := json.Unmarshal(body, &entries); e != nil {
+		return 0, fmt.Errorf("answer is not a JSON list: %v", e)
+	}
+	var got []rbSpan
+	var prevEnd time.Time
+	for i, en := range entries {
+		d := time.Duration(en.Duration * float64(time.Second))
+		if d < -tol {
+			return 0, fmt.Errorf("entry %d has negative duration %v", i, en.Duration)
+		}
+		end := en.Start.Add(d)
+		if i > 0 && en.Start.Before(prevEnd.Add(-tol)) {
+			return 0, fmt.Errorf("entry %d starts at %s before the end of the previous one (%s): not ordered/disjoint",
+				i, rbFmtT(en.Start), rbFmtT(prevEnd))
+		}
+		prevEnd = end
+		if d <= tol {
+			zeroLen++
+			continue
+		}
+		got = append(got, rbSpan{en.Start, end})
+		// the URL must describe the same span
+		u, e := url.Parse(en.URL)
+		if e != nil {
+			return 0, fmt.Errorf("entry %d: bad url %q", i, en.URL)
+		}
+		us, e := time.Parse(time.RFC3339, u.Query().Get("start"))
+		if e != nil || !us.Equal(en.Start) {
+			return 0, fmt.Errorf("entry %d: url start %q differs from start %s", i, u.Query().Get("start"), en.Start)
+		}
+	}
+	render := func(s []rbSpan) string {
+		var b strings.Builder
+		for _, x := range s {
+			fmt.Fprintf(&b, "[%s,%s) ", rbFmtT(x.A), rbFmtT(x.B))
+		}
+		return b.String()
+	}
+	// align: spans shorter than the quantisation error may be present or absent on either side
+	short := func(x rbSpan) bool { return x.B.Sub(x.A) <= 2*tol }
+	i, j := 0, 0
+	for i < len(want) || j < len(got) {
+		switch {
+		case i < len(want) && j < len(got) &&
+			rbAbsDur(got[j].A.Sub(want[i].A)) <= tol && rbAbsDur(got[j].B.Sub(want[i].B)) <= tol:
+			i++
+			j++
+		case i < len(want) && short(want[i]):
+			i++
+		case j < len(got) && short(got[j]):
+			j++
+		default:
+			return 0, fmt.Errorf("spans %s want %s", render(got), render(want))
+		}
+	}
+	return zeroLen, nil
+}
+
+// rbIsRagged reports whether some instant of the recording is not a whole millisecond (quantisation tolerances apply).
+func rbIsRagged(spec *rbSpec) bool {
+	for _, se := range spec.Sessions {
+		if se.Start.Nanosecond()%int(time.Millisecond) != 0 {
+			return true
+		}
+		for _, u := range se.Units {
+			c := spec.clock(u.Track)
+			if u.Ticks%(c/1000) != 0 {
+				return true
+			}
+		}
+		if se.EndTicks%(spec.clock(0)/1000) != 0 {
+			return true
+		}
+	}
+	return false
 }
